@@ -13,23 +13,23 @@ import (
 // runs the very same text through the real goja.
 
 const (
-	opEmitConst    = iota // _.out({"n":<i>});
-	opEmitBindings        // _.out(_.bindings);
-	opEmitNaN             // _.out(0/0);          cannot be serialised: the emit fails
-	opSetBinding          // _.bindings["k"] = 1;
-	opDelBinding          // delete _.bindings["?x"];
-	opSetDeep             // _.bindings["deep"]["x"] = 1;
-	opSetPerm             // _.bindings["p!"] = "changed";
-	opSetProp             // _.props["p"] = 2;
-	opSetPropDeep         // _.props["nested"]["q"] = 2;
-	opPolluteGlobal       // globalThis.polluted = 1;
-	opPolluteProto        // Object.prototype.polluted = 1;
-	opKillOut             // _.out = null;
-	opReplaceBindings     // _.bindings = {"fresh":1};
-	opProbe               // emits {"polluted":true} if a global or prototype pollution is visible
-	opThrow               // throw "boom";
-	opLoop                // while (true) {}
-	opSetArrElem          // _.bindings["arr"][0]["q"] = 9;   an object inside an array
+	opEmitConst       = iota // _.out({"n":<i>});
+	opEmitBindings           // _.out(_.bindings);
+	opEmitNaN                // _.out(0/0);          cannot be serialised: the emit fails
+	opSetBinding             // _.bindings["k"] = 1;
+	opDelBinding             // delete _.bindings["?x"];
+	opSetDeep                // _.bindings["deep"]["x"] = 1;
+	opSetPerm                // _.bindings["p!"] = "changed";
+	opSetProp                // _.props["p"] = 2;
+	opSetPropDeep            // _.props["nested"]["q"] = 2;
+	opPolluteGlobal          // globalThis.polluted = 1;
+	opPolluteProto           // Object.prototype.polluted = 1;
+	opKillOut                // _.out = null;
+	opReplaceBindings        // _.bindings = {"fresh":1};
+	opProbe                  // emits {"polluted":true} if a global or prototype pollution is visible
+	opThrow                  // throw "boom";
+	opLoop                   // while (true) {}
+	opSetArrElem             // _.bindings["arr"][0]["q"] = 9;   an object inside an array
 )
 
 func stmt(op int, i int) string {
